@@ -222,6 +222,20 @@ def run(pid, level="model_checking"):
     th.check()
     thorough = rep.tier == "thorough"
     st, tr_, cmd = design_check(thorough)
+    if pid == "C03":
+        # the update vocabulary closes the point universe under ApplyUpdate: exhaustive for single-point databases,
+        # random behaviours (depth 12) for up to three points; UpdateExact is asserted on every transition
+        for ml, sim in ((1, None), (3, "num=%d" % (1500 if thorough else 300))):
+            cfg = tlc.cfg_text(init="MCInit", next_="MCNext",
+                               constants={"Mode": "check", "Alpha": "update", "MaxLen": ml, "Depth": 0, "AutoIndex": True},
+                               invariants=MC_INVS, constraints=["ValueBound"])
+            r = tlc.run_tlc("MC_TinyFlux", cfg, workers=16 if sim is None else 8, timeout=900, simulate=sim, depth=12 if sim else None,
+                            seed=rep.seed + 3 if sim else None)
+            if r.violated or any("ACTION-PROPERTY" in l for l in r.stdout.splitlines()):
+                raise tlc.MachineryError("the bounded design violates %s over the update alphabet:\n%s" % (r.violated or "an action property", r.tail(40)))
+            tlc.require_clean(r, "MC_TinyFlux update alphabet")
+            st += r.distinct
+            tr_ += r.states
     # ---- code -> spec: random histories
     n_rand = 8000 if thorough else 800
     jobs = random_jobs(pid, n_rand, rep.seed, [10, 20, 30, 45] if not thorough else [15, 30, 50, 80])
